@@ -355,7 +355,7 @@ def _apply(step, ddf, cur, rng, gparts=()):
             if not bool(cur["s"].is_monotonic_increasing):
                 raise _Skip("column s is not sorted any more")
             return ddf.set_index("s", sorted=True), "sorted=True"
-        avail = [c for c in ("u", "f", "b", "t", "a", "s") if c in cols]
+        avail = [c for c in ("u", "f", "b", "t", "a", "s") if c in cols and c != cur.index.name]
         if not avail:
             raise _Skip("no column")
         col = avail[rng.randrange(len(avail))]
@@ -507,7 +507,7 @@ def _apply(step, ddf, cur, rng, gparts=()):
     if op == "sort_values":
         if not is_frame:
             raise _Skip("series")
-        avail = [c for c in ("a", "u", "f", "d") if c in cols]
+        avail = [c for c in ("a", "u", "f", "d") if c in cols and c != cur.index.name]
         if not avail:
             raise _Skip("no column")
         return ddf.sort_values(avail[rng.randrange(len(avail))]), "sort_values"
@@ -527,6 +527,8 @@ def _apply(step, ddf, cur, rng, gparts=()):
             if not known and ddf.npartitions > 1:
                 raise _Skip("rolling needs known divisions")
             return tgt.rolling(rng.choice((1, 2, 3)), min_periods=1).sum(), "rolling"
+        if form in ("cumsum", "cummax") and is_frame and len(num) < 2:
+            raise _Skip("cumulative ops on one-column frames are C46's subject")
         if form == "cumsum":
             return tgt.cumsum(), "cumsum"
         if form == "cummax":
@@ -596,13 +598,13 @@ def _observe(ctx, ddf, stage, state):
                       divisions=shown, parts=pshow, **state)
         raise _Stop()
     if len(gparts) != len(divs) - 1:
-        ctx.violation("%s:graph:partition-count-vs-divisions" % _where(ddf, stage, True),
+        ctx.violation(_glabel(_where(ddf, stage, True), "partition-count-vs-divisions"),
                       "graph has %d partitions, divisions %s announce %d (stage %s)"
                       % (len(gparts), shown, len(divs) - 1, stage), stage=stage, divisions=shown, parts=pshow, **state)
         raise _Stop()
     v = _bounds(divs, gparts)
     if v:
-        ctx.violation("%s:graph:%s" % (_where(ddf, stage, False), v[0]), v[1], stage=stage, divisions=shown,
+        ctx.violation(_glabel(_where(ddf, stage, False), v[0]), v[1], stage=stage, divisions=shown,
                       parts=pshow, **state)
         raise _Stop()
     # ---- accessor view (the shared monitor; computes ddf.partitions[i])
@@ -624,6 +626,16 @@ def _observe(ctx, ddf, stage, state):
     return cur, gparts
 
 
+def _glabel(where, symptom):
+    """graph-view label.  Findings attributed to a rewrite ('optimize:...') get ONE symptom: the rewritten
+    graph has another partitioning than the one reported, whether that shows as a partition count, as index
+    values outside their interval or as an exception in a consumer that trusted the reported divisions (the
+    message says which)."""
+    if where.startswith("optimize:"):
+        return where + ":reported-divisions-not-those-of-the-graph"
+    return "%s:graph:%s" % (where, symptom)
+
+
 def _exception(ctx, e, ddf, stage, phase, state, **detail):
     """A dask exception while looking at a stage.  When some sub-expression reports known divisions that its
     lowered form does not have, every downstream consumer fails in its own way: one mechanism, one label."""
@@ -631,7 +643,7 @@ def _exception(ctx, e, ddf, stage, phase, state, **detail):
 
     w = _where(ddf, stage, False)
     if w != stage and not through_shim(e):
-        ctx.violation("%s:reported-divisions-lost-on-lowering:exception-downstream" % w,
+        ctx.violation(_glabel(w, "exception-downstream"),
                       "%s: %s (stage %s, %s)" % (type(e).__name__, str(e)[:300], stage, phase), stage=stage,
                       **dict(state, **detail))
         return
@@ -695,11 +707,14 @@ def _where(ddf, stage, by_count):
         if e is None:
             return stage
         top = _desc(e)
-        if by_count and top == "Projection":
-            # the only rewrite by which a projection changes a partition count: Concat(axis=1)._simplify_up
-            # drops the inputs none of whose columns are selected
-            if any(_desc(x) == "Concat[axis=1]" for x in e.walk()):
-                return "optimize:Projection-over-Concat[axis=1]"
+        descs = {_desc(x) for x in e.walk()}
+        if top == "Projection" and "Concat[axis=1]" in descs:
+            # the rewrite by which a projection changes a partitioning: Concat(axis=1)._simplify_up drops the
+            # inputs none of whose columns are selected
+            return "optimize:Projection-over-Concat[axis=1]"
+        if top == "Filter" and "SetIndex[quantiles]" in descs:
+            # a filter pushed below set_index changes the quantile divisions (also through a Repartition)
+            return "optimize:Filter-over-SetIndex[quantiles]"
         n = 0
         while type(e).__name__ not in _DEFINERS and hasattr(e, "frame") and n < 8:
             try:
